@@ -39,6 +39,21 @@ func nodeScript() []string {
 	return s
 }
 
+// nodeScript2 exercises the paths the benign script never reaches: at height 2 this node does not receive the
+// honest proposal but a competing well-formed block B from the Byzantine validator, prevotes B, the rest of the
+// network commits A, so the node is in commit wait WITHOUT the committed block's header until it arrives late.
+func nodeScript2() []string {
+	var s []string
+	s = append(s, nodeRound("A")...)
+	s = append(s,
+		"SR", "PH:B", "SR:B", "V:p:3:B", "V:p:o1:A", "V:c:oh:A", "V:c:3:A", // committed by others; header A unknown here
+		"V:p:o2:A@-1,0", // a late vote (the network has moved on): one more view update while waiting for the header
+		"PH:A@-1,0",     // the header arrives
+		"DR", "TF")
+	s = append(s, nodeRound("A")...)
+	return s
+}
+
 func init() {
 	registry.Execs["node"] = execNode
 }
@@ -46,6 +61,9 @@ func init() {
 func execNode(t *testing.T, job vx.Job) (res vx.Result) {
 	props := strings.Split(job.Args["props"], ",")
 	script := nodeScript()
+	if job.Args["script"] == "2" {
+		script = nodeScript2()
+	}
 	var events []string
 	seed := 0
 	switch job.Args["mode"] {
